@@ -72,6 +72,14 @@ CHECKS = {
          "Gray-code and undo-excess-work steps change behaviour.",
          "Beyond the exhaustive limit only the structured family is covered (stated in evidence).",
          "DESIGN.md section 3/C07"),
+ "C08": ("exploration", "E1",
+         "bounded exhaustive enumeration of (kind, total_bounds variant, argument type, p, position) against an exact rational cell + independent Hilbert reference",
+         "7 kinds x 7 explicit extents (power-of-two, zero width/height/both, not containing the data) x 27 dyadic centres "
+         "(interior, cell boundaries, edges, outside) x tuple/list/float-ndarray/int-ndarray/int-list x every p in 1..31 x "
+         "positions (reversed, sliced, single, missing neighbours, GeoSeries) plus default bounds; expected cell by exact "
+         "rational arithmetic, expected distance by a textbook xy2d reference; argument compared before/after.",
+         "Exact equality is only claimed where the extent is a power of two and centres dyadic (all enumerated scenes).",
+         "DESIGN.md section 3/C08"),
 }
 
 NOT_YET = {}
